@@ -25,6 +25,7 @@ import json
 import os
 import random
 import re
+import time
 from concurrent.futures import ThreadPoolExecutor
 
 import vlib
@@ -73,23 +74,14 @@ def read_generation(rng, dump_path, probe_budget):
     """nodes: key -> witness history text; probes grouped by node key (sampled by seed when above budget)."""
     nodes, probes = {}, {}
     nprobes = 0
-    acts, errs, pacts, alts = {}, {}, {}, 0
     for st in iter_raw_states(dump_path):
         key = '|'.join(squeeze(st[v]) for v in ('src', 'idx', 'mig', 'rd'))
         leaf = squeeze(st['leaf'])
         if leaf == '<<>>':
             nodes[key] = squeeze(st['hist'])
-            for a in re.findall(r' a \|-> "(\w+)"', nodes[key]):
-                acts[a] = acts.get(a, 0) + 1
         else:
             probes.setdefault(key, []).append(leaf)
             nprobes += 1
-            m = re.search(r'\], err \|-> "(\w+)"', leaf)
-            errs[m.group(1)] = errs.get(m.group(1), 0) + 1
-            m = re.search(r' a \|-> "(\w+)"', leaf)
-            pacts[m.group(1)] = pacts.get(m.group(1), 0) + 1
-            if not leaf.rstrip(' >]').endswith('alt |-> <<'):
-                alts += 1
     missing = [k for k in probes if k not in nodes]
     if missing:
         raise vlib.Inconclusive(f'{len(missing)} probe state(s) without their node in the dump')
@@ -105,7 +97,7 @@ def read_generation(rng, dump_path, probe_budget):
                 i += 1
             probes[k] = sel
         chosen = probe_budget
-    return nodes, probes, nprobes, chosen, acts, errs, pacts, alts
+    return nodes, probes, nprobes, chosen
 
 
 def to_tla(v):
@@ -191,7 +183,7 @@ def run(ctx):
         # one worker: strict breadth-first order, so that every state is first reached with the fewest operations and the set
         # of nodes does not depend on the scheduling of TLC's worker threads
         g = ctx.tlc_must_pass(SPEC, cfg, timeout=sc * (600 if quick else 2400), workers=1, heap='3g', dump=True, tag='gen-' + cfg.split('.')[1])
-        nodes, probes, total, chosen, acts, errs, pacts, alts = read_generation(random.Random(f'{ctx.seed}/{cfg}'), g.dump_path, budget)
+        nodes, probes, total, chosen = read_generation(random.Random(f'{ctx.seed}/{cfg}'), g.dump_path, budget)
         os.remove(g.dump_path)
         level = level_of(ctx, cfg)
         share = 8 if level == 'kv' else 16
@@ -200,8 +192,7 @@ def run(ctx):
         for i, k in enumerate(sorted(nodes)):
             cases.append({'hist': nodes[k], 'probes': probes.get(k, []), 'level': level, 'store': 'bolt' if i % share == off else 'inmem',
                           'mainAtomic': True, 'conc': i, 'lead': ''})
-        return cfg, cases, {'nodes': len(nodes), 'probes': total, 'probes_replayed': chosen, 'probes_with_store_dependent_outcome': alts,
-                            'step_actions': acts, 'probe_outcomes': errs, 'probe_actions': pacts, 'level': level}
+        return cfg, cases, {'nodes': len(nodes), 'probes': total, 'probes_replayed': chosen, 'level': level}
 
     # ---- 4. simulation (Atomic set to the store kind the behaviours are replayed on)
     def sim(cfg, atomic, num, depth):
@@ -246,6 +237,7 @@ def run(ctx):
                 errs.append(str(e))
     if errs:
         raise vlib.Inconclusive(' | '.join(errs)[:3000])
+    vlib.log(f'XKVINDEX: model checking and leads done t={time.time()-ctx.t0:.0f}s')
     leads = {}
     for cfg, pattern, tlen, lcases in lead_res:
         lres, llines = ctx.replay(binary, lcases, procs=2, timeout=sc * 120)
@@ -280,19 +272,29 @@ def run(ctx):
     if errs:
         raise vlib.Inconclusive(' | '.join(errs)[:3000])
 
+    vlib.log(f'XKVINDEX: generation and simulation done t={time.time()-ctx.t0:.0f}s')
     gen_stats = {}
     sampled = False
     acts, outcomes, pacts = {'kv': {}, 'urm': {}}, {}, {'kv': {}, 'urm': {}}
     for cfg, cases, st in gens:
         gen_stats[cfg] = st
         sampled = sampled or st['probes_replayed'] < st['probes']
-        for src, dst in ((st['step_actions'], acts[st['level']]), (st['probe_outcomes'], outcomes), (st['probe_actions'], pacts[st['level']])):
-            for a, n in src.items():
-                dst[a] = dst.get(a, 0) + n
         res, lines = ctx.replay(binary, cases, procs=ncpu, timeout=sc * (900 if quick else 3000), case_timeout='300s')
         ctx.absorb(res, lines, sample=1)
+        # what the driver parsed and replayed (for the vacuity guards below)
+        st['probes_with_store_dependent_outcome'] = 0
+        for x in res:
+            ex = x.get('extra') or {}
+            st['probes_with_store_dependent_outcome'] += ex.get('alts', 0)
+            for src, dst in ((ex.get('hact'), acts[st['level']]), (ex.get('perr'), outcomes), (ex.get('pact'), pacts[st['level']])):
+                for a, n in (src or {}).items():
+                    dst[a] = dst.get(a, 0) + n
     res, lines = ctx.replay(binary, sim_cases, procs=ncpu, timeout=sc * (600 if quick else 1800))
     ctx.absorb(res, lines, sample=1)
+    for x, c in zip(res, sim_cases):     # (operations that lead back to states BFS has already seen: they are steps of the random behaviours)
+        for a, n in ((x.get('extra') or {}).get('hact') or {}).items():
+            acts[c['level']][a] = acts[c['level']].get(a, 0) + n
+    vlib.log(f'XKVINDEX: replay done t={time.time()-ctx.t0:.0f}s')
     # vacuity guards: every operation advanced some witness history and was probed, every error class was the outcome of some probe
     zero = [f'{lv}:{a}' for lv in ('kv', 'urm') for a in STEP_ACTIONS[lv] if not acts[lv].get(a)]
     zero += [f'{lv}:probe:{a}' for lv in ('kv', 'urm') for a in PROBE_ACTIONS[lv] if not pacts[lv].get(a)]
@@ -312,7 +314,7 @@ def run(ctx):
                 'including failed transactions and idle operations, generated per store kind; leads: counterexamples of the contract. After every '
                 'step: error class, count, both raw buckets, Walk per foreign key (set, multiplicity, values, early stop, no read path), tenant '
                 'listings by user / unfiltered / by resource, Verify. non-trivial = case whose final state has a non-empty source and a non-empty '
-                'index; distinct by level and operation sequence. Vacuity guards: every operation kind advanced a witness history and was probed at '
+                'index; distinct by level and operation sequence. Vacuity guards: every operation kind was a step of a replayed history (witness or random) and was probed at '
                 'both levels, every error class occurred among the probes, every step action fired in the MC runs')
     ctx.assumptions += [
         'one caller at a time: writers, Populate (its verify pass and its flushes) and readers do not interleave (migrations run before the services start)',
